@@ -399,7 +399,7 @@ def decodeField (S : Schema) (E : Enums) (f : FieldD) : JVal → R Val
     else if f.ty == .map && f.mapV == .message then
       match f.mapVKind with
       | .user c => (fromDictMapVals S E c vs).bind fun vals => .ok (.dict (ks.map keyV) vals)
-      | _ => .error .attr            -- `datetime.from_dict`: AttributeError
+      | _ => if vs.isEmpty then .ok (.dict [] []) else .error .attr   -- `datetime.from_dict`: AttributeError on the first item
     else if isInt64 f.ty || f.ty == .bytes || f.ty == .enum || f.ty == .float || f.ty == .double then .error .type
     else unRaw (.obj ks vs)
   | j =>
